@@ -847,6 +847,17 @@ impl<T> Shared<T> {
   /// missed the last producer's final `SET` (ordered-before that observation).
   /// Exactly one more drain is required (and sufficient) before declaring the
   /// stream terminally drained. `Some(v)` = a straggler was found.
+  /// Whether tickets are outstanding: claimed by a producer but not yet handed to the consumer.
+  /// A receive path that has seen `sender_count == 0` and found nothing to dequeue must not
+  /// report `Disconnected` while this holds: `close()` takes `&self`, so another thread may be
+  /// in the middle of a send on the very handle that was just closed (its ticket claimed, its
+  /// value not written yet), and everything queued behind that ticket - values whose sends
+  /// completed before the close - would be stranded.
+  #[inline]
+  pub(crate) fn sends_in_flight(&self) -> bool {
+    !self.is_empty()
+  }
+
   pub(crate) fn drain_straggler(&self) -> Option<T> {
     match self.deq_once() {
       Deq::Got(v) => Some(v),
